@@ -102,6 +102,13 @@ def opFragOb (args : List String) (impl : String) : Verdict :=
     | _, _ => bad "fragob"
   | _ => bad "fragob"
 
+/-- `fragdecr cuts …decr args…`: the fragmented transport must not change anything, in particular not what is
+left in the caller's reader: model and spec verdict are those of `decr` -/
+def opFragDecr (args : List String) (impl : String) : Verdict :=
+  match args with
+  | _ :: rest => opDecr rest impl
+  | _ => bad "fragdecr"
+
 /-- `fragenc m blob bs ranges corruption` -/
 def opFragEnc (args : List String) (impl : String) : Verdict :=
   match args with
@@ -298,11 +305,15 @@ def opFaults (args : List String) (impl : String) : Verdict :=
           let objs := opObjs name
           let counts := ",".intercalate (objs.map fun o => s!"{o}:{(tr.filter (·.obj == o)).length}")
           let head := s!"Ok N={counts}"
-          let kinds := ["Other", "UnexpectedEof", "ConnectionReset", "WriteZero"]
+          let kinds0 := ["Other", "UnexpectedEof", "ConnectionReset", "WriteZero"]
           let lines := objs.flatMap fun o =>
             let evs := tr.filter (·.obj == o)
+            -- "Eof": the data source / stream ends at this read (short read). The exact-read loops turn that
+            -- into an UnexpectedEof error of their own (not the injected one: no `*`)
+            let kinds := if (o == "data" || o == "r") && name != "mixed" then kinds0 ++ ["Eof"] else kinds0
             (evs.zipIdx.filter fun (_, k) => k % (max stride 1) == 0).map fun (e, k) =>
-              s!"{o}@{k}[{e.label}] " ++ " ".intercalate (kinds.map fun kd =>
+              s!"{o}@{k}[{e.label}] " ++ " ".intercalate (kinds.map fun kd0 =>
+                let kd := if kd0 == "Eof" then "UnexpectedEof" else kd0
                 -- the byte encoders have a fault-aware model function; the others use the call skeleton
                 let res :=
                   if name.startsWith "enc" then
@@ -326,7 +337,8 @@ def opFaults (args : List String) (impl : String) : Verdict :=
                     match fo, faultTerminal name d bs kind ranges with
                     | some fo, some f => f (some ⟨fo, k, kk⟩)
                     | _, _ => expectFault name e kd
-                s!"{kd}={res}/a0/p1")
+                let res := if kd0 == "Eof" then res.replace "*" "" else res
+                s!"{kd0}={res}/a0/p1")
           -- the twin's own call log must be the skeleton (two independent descriptions of "the k-th call")
           let twinOk : Bool := match faultCalls name d bs kind ranges with
             | none => true
@@ -350,7 +362,9 @@ def opFaults (args : List String) (impl : String) : Verdict :=
                       -- the io error itself; the write-failed error only for a connection reset on a
                       -- writer; the not-found error only for end-of-stream on the stream reader
                       let obj := (part.splitOn "@").head!
-                      let okIo := res == s!"Io({kd}*)"
+                      let isEof := kd == "Eof"
+                      let kd := if isEof then "UnexpectedEof" else kd
+                      let okIo := res == (if isEof then "Io(UnexpectedEof)" else s!"Io({kd}*)")
                       let okWrite := (res.startsWith "ParentWrite" || res.startsWith "LeafWrite") && obj == "w" && kd == "ConnectionReset"
                       let okNotFound := (res.startsWith "ParentNotFound" || res.startsWith "LeafNotFound") && obj == "r" && kd == "UnexpectedEof"
                       let okSend := res == "SendErr" && obj == "s"
